@@ -227,7 +227,7 @@ pub fn run(case: &Case, known: &BTreeSet<String>) -> Outcome {
     };
     let first_diff = |a: &[u64], b: &[u64]| a.iter().zip(b.iter()).position(|(x, y)| x != y);
     // same-configuration comparisons
-    let tmpdir = format!("/verif/target/tmp/c18-{}", std::process::id());
+    let tmpdir = format!("{}/target/tmp/c18-{}", crate::supervisor::verif_dir(), std::process::id());
     let same_cfg: Vec<(&str, i64)> = vec![("repeat", 0), ("chunked", 1), ("cursor", 2), ("file", 3)];
     for (name, id) in same_cfg {
         if only >= 0 && only != id {
